@@ -7,4 +7,4 @@ Set Extraction Optimize.
 Extraction "model_tfull.ml"
   N.add N.mul N.sub N.div_eucl N.compare Z.add Z.mul Z.sub Z.div_eucl Z.compare Z.of_N Z.to_N Z.opp
   TfullModel.wf_template TfullModel.tree_of_full TfullModel.render_all_jv TparseModel.parse_model
-  TmplModel.expand TmplModel.print_nodes EscapeModel.auto_of EscapeModel.list_eqb.
+  TmplModel.expand TmplModel.print_nodes EscapeModel.auto_of EscapeModel.list_eqb TmplModel.jv_of_numeral.
